@@ -336,7 +336,7 @@ def run(tier: str) -> int:
     r = common.Run("C12", tier)
     quick = tier == "quick"
     r.rule = ("exhaustive: all valid pointer structures over ages {5,20,40,70}, ≤2 households, every "
-              "matching/marriage/parent assignment, n ≤ 3 (quick) / n ≤ 4 and a sample of n = 5 (thorough), "
+              "matching/marriage/parent assignment, exhaustive for n ≤ 3, 15 000 of the ~69 000 structures of n = 4 and 3 000 of n = 5 (thorough), "
               "every row order; random: popgen structures up to 40 persons with 6 orders; oracle = "
               "connected components of the unit definitions; T2: exact ids model vs code on valid and "
               "invalid structures. distinct = distinct (structure, order).")
@@ -351,6 +351,9 @@ def run(tier: str) -> int:
     total = 0
     for n in ([1, 2, 3] if quick else [1, 2, 3, 4]):
         structs = enumerate_structures(n)
+        if n == 4 and len(structs) > 15000:
+            r.extra["structures_n4_total"] = len(structs)
+            structs = rnd.sample(structs, 15000)   # of ~69 000; every one with all 24 row orders
         total += len(structs)
         for P in structs:
             check_structure(r, P, list(itertools.permutations(range(n))), f"exhaustive n={n}")
